@@ -290,7 +290,7 @@ _T = {
          "the composition of C01/C10/C16 into 'both loader paths agree' is an argument in DESIGN.md section 10.5, not a machine-checked lemma; the host's marshal.loads is trusted; hosts are the six installed interpreters; static analysis assumptions of ground/frames.py; two recorded cosmetic known findings (code-object repr, set element order)."),
  "C14": ("The integer paths of xdis.marsh are proved for every int of any size: w_long/w_short/w_long64 append exactly the little-endian words that read back (two's complement) to the value; dump_int picks 'i'/'I' by range; dump_long writes 'l', the signed digit count and the 15-bit digits of |x| (loop invariants over a positional-notation spec with an induction lemma: the digits sum back to |x|, top digit non-zero, all digits < 2**15); the fast reader's _r_short/_r_long/_r_long64 are proved to decode the same words. dump_float's text is proved to be repr() of the argument framed by its length byte. Other text, complex and container writers/readers are compared with the marshal of hosts 3.8-3.13 by a bounded differential in both directions (dumps/loads, and the file-object forms dump/load: two recorded known findings - both file-object forms are unusable on Python 3).",
          "the byte sink is a ghost sequence of everything written through self._write; chr()/str concatenation modelled for code points < 256; load_long's accumulation (x | d << 15 i with symbolic shift) and all non-integer paths are bounded only; bytes-assembly in dumps() is bounded only."),
- "C13": ("write_bytecode_file is proved, for the magic of every final CPython release 1.3-3.13 and all timestamps/source sizes, to write exactly the header that the C06-verified reader decodes back to the same (magic, flags 0, timestamp, size), followed by the marshaller's bytes and nothing else, to the path given, and to close the file; out-of-range header words raise. The timestamp forms outside that domain (None, 0 or omitted: the current time is stamped; a datetime; a value of another type: TypeError) are enumerated exhaustively per final magic and kind of code object against the same header specification. _Marshaller.dump_code3 is proved to emit the fields of a 3.0-3.10 code object in the order and width of the layout the reader t_code is verified against (C01), and to refuse 3.11+ objects; _Marshaller.dump_code2 is proved to emit the 2.3-2.7 layout with co_code, co_filename, co_name, co_lnotab and every entry of co_names / co_varnames written through dump_string (byte strings for Python 2), each tuple framed by '(' and its own length (tuples of 2 and 3 entries: the per-entry loops are unrolled, a bound of that unit); w_long/w_short/dump_long as in C14. Whether the rewritten file is the same program is judged by the target interpreters (2.7, 3.6-3.13) and by xdis re-reading it, on 13 programs per version: bounded.",
+ "C13": ("write_bytecode_file is proved, for the magic of every final CPython release 1.3-3.13 and all timestamps/source sizes, to write exactly the header that the C06-verified reader decodes back to the same (magic, flags 0, timestamp, size), followed by the marshaller's bytes and nothing else, to the path given, and to close the file; out-of-range header words raise. The timestamp forms outside that domain (None, 0 or omitted: the current time is stamped; a datetime; a value of another type: TypeError) are enumerated exhaustively per final magic and kind of code object against the same header specification. _Marshaller.dump_code3 is proved to emit the fields of a 3.0-3.10 code object in the order and width of the layout the reader t_code is verified against (C01), and to refuse 3.11+ objects; _Marshaller.dump_code2 is proved to emit the 2.3-2.7 layout with co_code, co_filename, co_name, co_lnotab and every entry of co_names / co_varnames written through dump_string (byte strings for Python 2), each tuple framed by '(' and its own length (tuples of any length: loop invariants over the fold of the entries' chunks); w_long/w_short/dump_long as in C14. Whether the rewritten file is the same program is judged by the target interpreters (2.7, 3.6-3.13) and by xdis re-reading it, on 13 programs per version: bounded.",
          "marshal.dumps / xdis.marsh.dumps are external in the header proof (their result is an opaque byte chunk); dump() of sub-objects is abstract (D(v)) in the layout proof; compilation_ts given as a positive int (the datetime / now() branches are not under contract); dump_code2 (Python 2 layout) is not under contract: three recorded known findings live there; 1.0/1.1 magics excluded (the writer always writes \\r\\n)."),
 }
 for _k, (_a, _b) in _T.items():
